@@ -171,6 +171,7 @@ def run(seed):
     steps = 1 if PROP in ('C05', 'C14') else rnd.randrange(2, 6)
     inserted = False
     twin_seen = False
+    m_old_name = ''
     hist = []
     for step in range(steps):
         nodes = [d for d in soup.descendants if isinstance(d, TexNode) and id(d.expr) in table]
@@ -244,6 +245,8 @@ def run(seed):
                     continue
                 if m.name == 'item' and m.contents:
                     continue        # a renamed \\item would no longer accept edits of its contents (API restriction)
+                m_old_name = m.name
+                soup.count(m_old_name)          # visited by a search before the rename
                 node.name = 'zz'
                 m.name = 'zz'
             elif op == 'string':
@@ -288,7 +291,7 @@ def run(seed):
                 again = TexSoup(got)
                 if str(again) != got:
                     return [('reparse-differs', 'document %r after %s: re-parsing %r gives %r' % (s, desc, got, str(again)))]
-                if op == 'rename' and again.count('zz') != soup.count('zz'):
+                if op == 'rename' and (again.count('zz') != soup.count('zz') or again.count(m_old_name) != soup.count(m_old_name)):
                     return [('rename-not-visible', 'document %r after %s: search sees %d, re-parsed %d'
                              % (s, desc, soup.count('zz'), again.count('zz')))]
             except Exception:
@@ -300,6 +303,93 @@ def run(seed):
                          'document %r after %s: %s' % (s, '; '.join(hist), c))]
         # nodes created by the edit are not in the identity table: later steps target original nodes only
     return []
+
+
+# documents with textual twins and near-twins (siblings that differ only by a blank between sub-nodes, arguments that
+# read the same): every node x every applicable edit
+EXTRA_DOCS = ['{\\a \\b}{\\a\\b}x', '$\\a \\b$ and $\\a\\b$', '\\begin{center} \\x\\end{center}\\begin{center}\\x\\end{center}',
+              '\\foo{\\a \\b}{\\a\\b}', '\\frac{1}{1}{x}', '\\infer{A}{B}{A}', '\\multicolumn{c}{c}{c} t',
+              '\\begin{itemize}\\item {\\a \\b}\\item {\\a\\b}\\end{itemize}', '\\begin{center}x\\end{center} \\begin{quote}y\\end{quote}']
+
+
+def run_extra(case):
+    """one edit on one node of an extra document, against the reference model"""
+    doc, k, op, arg = case
+    soup = TexSoup(doc)
+    table = {}
+    root = mirror(soup.expr, table)
+    nodes = [d for d in soup.descendants if isinstance(d, TexNode) and id(d.expr) in table]
+    if k >= len(nodes):
+        return []
+    node = nodes[k]
+    m = table[id(node.expr)]
+    twin = has_twin(m) if m.parent is not None else False
+    try:
+        if node.parent is not None:
+            me = str(node)
+            twin = twin or sum(1 for x in node.parent.expr.all if str(x) == me) > 1
+    except Exception:
+        pass
+    desc = '%s %r on %r' % (op, arg, str(node)[:40])
+    old_name = m.name
+    try:
+        if op == 'delete':
+            lst, i = container_of(m)
+            list(soup.find_all(old_name)) if old_name else None
+            node.delete()
+            del lst[i]
+        elif op == 'replace':
+            lst, i = container_of(m)
+            node.replace_with('NEW')
+            lst[i:i + 1] = ['NEW']
+        elif op == 'slice':
+            if m.cls not in ('cmd', 'env') or len(m.args) < 2:
+                return []
+            a, b = arg
+            node.args = node.args[a:b]
+            m.args = m.args[a:b]
+        elif op == 'rename':
+            if m.cls not in ('cmd', 'env') or (m.name == 'item' and m.contents):
+                return []
+            before_old = soup.count(old_name)       # the node has been visited by a search before the rename
+            node.name = 'zz'
+            m.name = 'zz'
+            again = TexSoup(str(soup))
+            if soup.count(old_name) != again.count(old_name) or soup.count('zz') != again.count('zz') or \
+                    soup.count(old_name) != before_old - 1:
+                return [('rename-not-visible', 'document %r after %s: search for the old name %r finds %d (re-parsed: %d, '
+                         'before: %d), for the new name %d (re-parsed: %d)' % (doc, desc, old_name, soup.count(old_name),
+                                                                               again.count(old_name), before_old,
+                                                                               soup.count('zz'), again.count('zz')))]
+    except Exception as e:
+        return [(finding_class(op, twin, False) or 'edit-raises', 'document %r: %s raised %s: %s' % (doc, desc, type(e).__name__, str(e)[:60]))]
+    got, want = str(soup), root.ser()
+    if got != want:
+        return [(finding_class(op, twin, False) or 'edit-not-local',
+                 'document %r after %s: text is %r, the reference model gives %r' % (doc, desc, got, want))]
+    return []
+
+
+def extra_cases(prop):
+    out = []
+    for doc in EXTRA_DOCS:
+        n = len([d for d in TexSoup(doc).descendants if isinstance(d, TexNode)])
+        for k in range(n):
+            if prop in ('C05', 'C15'):
+                out += [(doc, k, 'delete', None), (doc, k, 'replace', None)]
+            if prop in ('C14', 'C15'):
+                out += [(doc, k, 'rename', None)]
+                out += [(doc, k, 'slice', (a, b)) for a in (0, 1, 2, None) for b in (1, 2, 3, None)]
+    return out
+
+
+def replay_extra(case, prop):
+    return REPLAY_HEAD + '''sys.path.insert(0, %r)
+import edits
+edits.PROP = %r
+r = edits.run_extra(%r)
+print(r or 'no violation'); sys.exit(1 if r else 0)
+''' % (os.path.dirname(os.path.abspath(__file__)), prop, case)
 
 
 def replay_src(seed, prop, depth):
@@ -323,6 +413,10 @@ def main(tier, prop):
         sw.case('seed %d' % sd, True)
         for cls, desc in r:
             sw.violation(cls, desc, replay_src(sd, prop, DEPTH), sd)
+    for case in extra_cases(prop):
+        sw.case('extra %r' % (case,), True)
+        for cls, desc in run_extra(case):
+            sw.violation(cls, desc, replay_extra(case, prop), case[0])
     sw.emit()
 
 
